@@ -68,7 +68,7 @@ def compare_frames(table, dfa, dfb, scale, exact=False, ptol=1e-8, ttol=1e-6, mr
                 # Newton step (<= tol_m in force, `mabs`), i.e. relative uncertainty mabs / |mdot|
                 tol = drel * np.maximum(np.abs(a), np.abs(b)) + 1e-12
                 if flowing is not None:
-                    lag = mabs / np.maximum(np.minimum(np.nan_to_num(ma), np.nan_to_num(mb)), 1e-300)
+                    lag = (mabs + mfloor) / np.maximum(np.minimum(np.nan_to_num(ma), np.nan_to_num(mb)), 1e-300)
                     tol = tol + lag * np.maximum(np.abs(a), np.abs(b))
                     tol = np.where(flowing, tol, np.inf)
             else:   # v_*, vdot, normfactor, qext_w, compr_power
@@ -99,6 +99,9 @@ def compare_nets(a, b, index_maps=None, exact=False, tables=None, skip_cols=(), 
     (default identity). Rows are matched by label, never by position."""
     diffs = []
     scale = max(flow_scale(a), flow_scale(b), 1e-12)
+    if not exact:
+        tol = dict(tol)
+        tol["mfloor"] = tol.get("mfloor", 1e-9) + 4.0 * max(cond_flow_tol(a), cond_flow_tol(b))
     ta, tb = set(res_tables(a)), set(res_tables(b))
     for t in sorted((ta | tb) if tables is None else tables):
         la = len(a[t]) if t in ta else 0
@@ -121,3 +124,58 @@ def compare_nets(a, b, index_maps=None, exact=False, tables=None, skip_cols=(), 
         dfb = b[t].loc[want]
         diffs += compare_frames(t, dfa, dfb, scale, exact=exact, skip_cols=skip_cols, **tol)
     return diffs
+
+
+def cond_flow_tol(net):
+    """A-posteriori bound on how well the mass flows of `net` are determined in double precision.
+
+    A branch obeys dp = c * m|m| with c = (lambda L/d + zeta) / (2 rho A^2 1e5). The solver reproduces pressures to
+    round-off eps_p (~1e-15 relative); a branch whose pressure difference is (almost) zero - e.g. a low-resistance
+    branch between two junctions of equal pressure - therefore carries a flow that is only determined to
+    sqrt(eps_p / c), a flowing branch to eps_p / (2 c |m|). The flow tolerance of cross-run comparisons is widened by
+    the largest of these per-branch uncertainties (it propagates through the junction balances of the mesh)."""
+    import math
+    try:
+        rho_n = float(net.fluid.get_density(273.15))
+    except Exception:
+        return 0.0
+    gas = net.fluid.is_gas
+    pj = net.res_junction.p_bar
+    pmax = float(np.nanmax(np.abs(pj.values))) + 1.1 if len(pj) and pj.notnull().any() else 1.0
+    eps_p = 4e-15 * pmax
+    worst = 0.0
+
+    def rho_at(j):
+        if not gas:
+            return rho_n
+        p = pj.get(j, np.nan)
+        p = (p if not np.isnan(p) else 0.0) + 1.01325
+        return max(rho_n * max(p, 0.05) / 1.01325 * 273.15 / 300.0, 1e-3)
+
+    def upd(c, m):
+        nonlocal worst
+        if c <= 0 or np.isnan(m):
+            return
+        u = min(math.sqrt(eps_p / c), eps_p / (2 * c * max(abs(m), 1e-300)))
+        worst = max(worst, u)
+    if "pipe" in net and len(net.pipe):
+        for idx, r in net.pipe.iterrows():
+            m = net.res_pipe.at[idx, "mdot_from_kg_per_s"]
+            d = r.inner_diameter_mm / 1e3
+            a = math.pi * d * d / 4
+            c = (0.008 * r.length_km * 1e3 / d + r.loss_coefficient) / (2 * rho_at(r.from_junction) * a * a * 1e5)
+            upd(c, m)
+    for t in ("valve", "heat_exchanger"):
+        if t in net and len(net[t]):
+            for idx, r in net[t].iterrows():
+                m = net["res_" + t].at[idx, "mdot_from_kg_per_s"]
+                d = r.inner_diameter_mm / 1e3
+                a = math.pi * d * d / 4
+                j = r.junction if t == "valve" else r.from_junction
+                upd(r.loss_coefficient / (2 * rho_at(j) * a * a * 1e5), m)
+    if "press_control" in net and len(net.press_control):
+        for idx, r in net.press_control.iterrows():
+            if not r.control_active:
+                a = math.pi * 0.01 / 4
+                upd(r.loss_coefficient / (2 * rho_at(r.from_junction) * a * a * 1e5), net.res_press_control.at[idx, "mdot_from_kg_per_s"])
+    return worst
